@@ -108,26 +108,16 @@ func (c *conductor) waitFor(what string, cond func() bool) bool {
 		// state (bound, closed pools empty) and the final ones (after Session.Close, full watchdog) are kept.
 		limit = 250 * time.Millisecond
 	}
-	dl := time.Now().Add(limit)
-	for i := 0; ; i++ {
-		if cond() {
-			return true
-		}
-		if time.Now().After(dl) {
-			if !c.degraded {
-				c.degraded = true
-				c.stall = what
-				atomic.AddInt64(&tieStalls, 1)
-				os.WriteFile(dumpPath("stall", c.label), []byte(what+"\n"+stacks()), 0o644)
-			}
-			return false
-		}
-		if i < 200 {
-			time.Sleep(50 * time.Microsecond)
-		} else {
-			time.Sleep(time.Millisecond)
-		}
+	if patient(limit, cond) {
+		return true
 	}
+	if !c.degraded {
+		c.degraded = true
+		c.stall = what
+		atomic.AddInt64(&tieStalls, 1)
+		os.WriteFile(dumpPath("stall", c.label), []byte(what+"\n"+stacks()), 0o644)
+	}
+	return false
 }
 
 func (c *conductor) cliConn(id int) *memcluster.ClientConn {
@@ -710,14 +700,7 @@ func runPipeLabelled(label string, cfg pipeCfg, fixed []string, choose chooser, 
 	c.sessionClose()
 	c.g.releaseAllDials()
 	after := 0
-	dl := time.Now().Add(wd())
-	for {
-		after = c.openSockets()
-		if after == 0 || time.Now().After(dl) {
-			break
-		}
-		time.Sleep(time.Millisecond)
-	}
+	patient(wd(), func() bool { after = c.openSockets(); return after == 0 })
 	close(c.stopSampler)
 	c.samplerDone.Wait()
 	if after > 0 {
